@@ -276,3 +276,26 @@ func TestD16DHPResetMargin(t *testing.T) {
 		}
 	}
 }
+
+// D18: GSAP with NoTrailingLiterals left the positions behind the last match in
+// its search set; in the next call they hide earlier positions.
+func TestD18GSAPNoTrailingLiterals(t *testing.T) {
+	data := []byte("aabbaaabaaaa")
+	p, err := (&GSAPConfig{BufferSize: 64, WindowSize: 64, BlockSize: 5, MinMatchLen: 3}).NewParser()
+	if err != nil {
+		t.Fatal(err)
+	}
+	p.Write(data)
+	pos := 0
+	for {
+		var blk Block
+		n, err := p.Parse(&blk, NoTrailingLiterals)
+		if err != nil {
+			break
+		}
+		if pos == 8 && (len(blk.Sequences) == 0 || blk.Sequences[0].LitLen > 0) {
+			t.Fatalf("block at 8: position 8 emitted as literal although position 4 offers a match of 3 bytes: %+v %q", blk.Sequences, blk.Literals)
+		}
+		pos += n
+	}
+}
